@@ -72,7 +72,7 @@ def h_structure(ctx, cls, nopt, nmem, nsym):
 from harness import c09 as _c09
 from harness import c10 as _c10
 
-HARNESSES = dict(structure=h_structure, wire=wire.h_wire, wire_long=wire.h_wire_long, dt_write=_c09.h_write, dt_read=_c09.h_read,
+HARNESSES = dict(structure=h_structure, wire=wire.h_wire, wire_long=wire.h_wire_long, dt_write=_c09.h_write, dt_read=_c09.h_read, dt_transition=_c09.h_write_transition,
                  string_value=_c10.h_string_value, string_text=_c10.h_string_text, string_tokens=_c10.h_string_tokens,
                  dec_value=_c10.h_dec_value, dec_long=_c10.h_dec_long, int_value=_c10.h_int_value, oneof=_c10.h_oneof, bool=_c10.h_bool)
 
@@ -133,6 +133,9 @@ def instances(tier, seed):
     mk("value:bool", "bool", {})
     for kind in ("dt", "time"):
         mk(f"value:dt_write[{kind}]", "dt_write", dict(kind=kind, named=None), timeout_ms=30000, wall_s=600)
+        if kind == "dt":
+            for zone in ("fold", "season"):
+                mk(f"value:dt_transition[{zone}]", "dt_transition", dict(zone=zone), timeout_ms=30000)
         for off in (["+", 1, False, None], ["-", 2, True, None], ["-", 1, True, None], ["+", 2, True, None]):
             mk(f"value:dt_read[{kind},{off}]", "dt_read", dict(kind=kind, has_time=True, has_ms=True, off=off), timeout_ms=20000)
     return out
